@@ -7,7 +7,7 @@ from lib.core import existing_modules
 from props import c01
 
 ID = "C03"
-LEVEL = "other"
+LEVEL = "proof"
 LEAN_MODULES = ['Sonic.Props.C03', 'Sonic.Props.C05']
 REQUIRED_THEOREMS = ["Sonic.Props.C03." + n for n in ["C03_value", "C03_value_of_ok", "C03_sax_assemble", "C03_root_finished", "C03_xmemcpy_copy"]]
 CONFIGS = [("avx2", "prod"), ("sse", "prod"), ("avx2", "san")]
@@ -23,11 +23,11 @@ EXPLANATION = ("Oracle: the value computed by Spec.Json.parse (Lean), rendered c
 ASSUMPTIONS = ["the cursor-level Xmemcpy model (proved to be a copy, C03_xmemcpy_copy) is tied to the four kernels by correspondence on chunk counts 0..520 (+ sparse to 4097), guard pages on both blocks"]
 TRUSTED = ["Spec.Json.parse as oracle (compiled Lean evaluation)"]
 LEVEL_TEXT = ("Machine-checked proof (Lean 4): Spec.Json.parse bs = ok v implies the parser model builds exactly v (nesting, order, duplicates, "
-              "decoded strings not clobbered by later in-place decoding, number kinds) - C03_value, C03_sax_assemble - under the per-input "
-              "NumberCorrectOn hypothesis (C04). Level 'other' because of that hypothesis; every valid text of the run is also compared with "
-              "the value denoted per the executable spec.")
+              "decoded strings not clobbered by later in-place decoding, number kinds and values) - C03_value, C03_sax_assemble - and the "
+              "children-block copy is a copy (C03_xmemcpy_copy). The only number-related hypothesis left is the decidable guard ExpSmall (every number-like token has a written exponent below 100000 in absolute value; known finding F6 lives outside it) - the number model itself is proved against the exact reference for every conversion path (C04). Every valid text of the run is also compared with the value "
+              "denoted per the executable spec, through the public accessor API.")
 LEVEL_NOTE = "Trusted: Lean kernel; standard axioms; compiled Lean evaluation of the spec; harness accessor walk."
-TECHNIQUE = "Lean 4 executable spec as oracle + component theorems; differential correspondence of trees"
+TECHNIQUE = "Lean 4 whole-parser refinement proof (tree = denoted value) + differential correspondence of trees"
 
 KINDS = [b"null", b"true", b"false", b"0", b"-7", b"1.5", b"18446744073709551615", b"1e300", b'""', b'"s\\n"', b"[]", b"{}", b"[1]", b'{"a":1}']
 
